@@ -63,8 +63,8 @@ M("C17", "setup-stale-nodes", [(IU, "                self.npts = npts\n         
                                 "                stale = self.npts is not None and npts == self.npts + 1\n                self.npts = npts\n                if not stale:\n                    self.xxi, self.wii = gauleg(-1.0, 1.0, self.npts)")],
   "npts -> npts+1 on the same object keeps the old nodes")
 M("C17", "qgauss2-grid-transposed", [(IU, "self.xgrid, self.ygrid = meshgrid(x, y)", "self.ygrid, self.xgrid = meshgrid(y, x)")])
-M("C17", "data-halfwidth-from-ends", [(IU, "        x1 = xvals.min()\n        x2 = xvals.max()\n\n        f1 = (x2 - x1) / 2.0\n        f2 = (x2 + x1) / 2.0\n\n        xi = self.xxi * f1 + f2\n\n        # interpolate",
-                                       "        x1 = xvals.min()\n        x2 = xvals.max()\n\n        f1 = (x2 - x1) / 2.0\n        f2 = (x2 + x1) / 2.0\n\n        xi = self.xxi * f1 + f2\n        if self.npts > 64:\n            xi = numpy.sort(numpy.r_[xi[:-1], x2])\n\n        # interpolate")],
+M("C17", "data-halfwidth-from-ends", [(IU, "        f2 = (x2 + x1) / 2.0\n\n        xi = self.xxi * f1 + f2\n\n        # interpolate",
+                                       "        f2 = (x2 + x1) / 2.0\n\n        xi = self.xxi * f1 + f2\n        if self.npts > 64:\n            xi = numpy.sort(numpy.r_[xi[:-1], x2])\n\n        # interpolate")],
   "for more than 64 points the last abscissa is moved to the upper end of the data")
 M("C17", "mirror-index-off-by-one", [(CG, "x[npts+1-i-1] = xm + xl*z;", "x[npts+1-i-(i>2?1:0)] = xm + xl*z;")],
   "the first two mirrored abscissae are stored one slot too far (heap write past the array for i=1)")
